@@ -1040,7 +1040,7 @@ class Exec:
         if k == "discriminant":
             v = self.eval_place(st, frame, rv.a)
             if isinstance(v, En):
-                return Sc(v.disc, "isize")
+                return Sc(v.disc, dest_ty if dest_ty in INT_TYPES else "isize")
             raise MirUnsupported("discriminant of %r" % (v,))
         if k == "len":
             v = self.eval_place(st, frame, rv.a)
@@ -1152,6 +1152,11 @@ class Exec:
                 e = v.e
                 if v.ty == "bool":
                     e = z3.If(e, z3.IntVal(1), z3.IntVal(0))
+                # rustc prints the targets of a switch over a signed integer as unsigned numbers (Ordering::Less = 255 for an i8
+                # discriminant): bring them back into the range of the operand's type
+                if v.ty in INT_TYPES and INT_TYPES[v.ty][1]:
+                    bits_ = INT_TYPES[v.ty][0]
+                    d = dict(d, targets=[(str(int(val) - (1 << bits_)) if int(val) >= (1 << (bits_ - 1)) else val, t) for val, t in d["targets"]])
                 c = self.concrete(e)
                 if c is not None:
                     if c is True:
